@@ -1,7 +1,7 @@
 #!/venv/bin/python
 """C10 implementation runner: DiskChopper validation / open-close times / cascade expansion.
 
-stdin  {"cases":[{"id", "f":hex, "funit":"Hz|kHz|1/min", "fp":hex, "fpunit":..,
+stdin  {"cases":[{"id", "f":hex, "funit":"Hz|kHz|1/min", "fdtype":"float64|int64|int32", "fp":hex, "fpunit":.., "fpdtype":..,
                   "bp":hex, "bpunit":"deg|rad", "ph":hex, "phunit":..,
                   "begin":[hex..], "end":[hex..], "aunit":"deg|rad", "int_slits":bool,
                   "npulses":int}]}
@@ -39,6 +39,12 @@ def err(ex):
     return {'error': type(ex).__name__, 'msg': str(ex)[:160]}
 
 
+def freq(v, unit, dtype):
+    if dtype.startswith('int'):
+        return sc.scalar(int(fl(v)), unit=unit, dtype=dtype)
+    return sc.scalar(fl(v), unit=unit, dtype=dtype)
+
+
 def build(c):
     if c.get('int_slits'):
         b = sc.array(dims=['slit'], values=np.array([int(fl(x)) for x in c['begin']], dtype='int64'), unit=c['aunit'])
@@ -48,7 +54,7 @@ def build(c):
         e = sc.array(dims=['slit'], values=[fl(x) for x in c['end']], unit=c['aunit'], dtype='float64')
     return DiskChopper(
         axle_position=sc.vector([0.0, 0.0, 2.0], unit='m'),
-        frequency=sc.scalar(fl(c['f']), unit=c['funit']),
+        frequency=freq(c['f'], c['funit'], c.get('fdtype', 'float64')),
         beam_position=sc.scalar(fl(c['bp']), unit=c['bpunit']),
         phase=sc.scalar(fl(c['ph']), unit=c['phunit']),
         slit_begin=b, slit_end=e)
@@ -62,7 +68,7 @@ def run_case(c):
     except Exception as ex:  # noqa: BLE001
         out['construct'] = err(ex)
         return out
-    fp = sc.scalar(fl(c['fp']), unit=c['fpunit'])
+    fp = freq(c['fp'], c['fpunit'], c.get('fpdtype', 'float64'))
     try:
         to = ch.time_offset_open(pulse_frequency=fp)
         tc = ch.time_offset_close(pulse_frequency=fp)
